@@ -86,6 +86,7 @@ def kernel_encs(chk, kind, tune=True):
         def end(key, ks, st, etype):
             return k.end_epoch(key, ks, st, K.epoch_state(etype, 10))
 
+        trans, start, end = K.with_stub(trans, rec), K.with_stub(start, rec), K.with_stub(end, rec)
         key = jax.random.PRNGKey(0)
         sks = symlike(ks0, f"{name}_ks")
         sst = symlike(K.STATE_AB, f"{name}_st")
